@@ -19,7 +19,7 @@ from vlib import ToolingError, parse_tlc_prints, VERIF
 META = {
     "level": "model_checking",
     "technique": "TLA+ two-layer specification of rac.Writer (RacWriter.tla: property layer + implementation-shaped writeBuffer/writeDChunks/writeCChunks model with an abstract cuttable codec) checked by TLC; its exported behaviours are replayed on the real rac.Writer (model codec and real zlib/lz4/zstd, index at start/end, temp file kinds, page sizes, shared resources) with every fault point of the underlying writer/temp file; produced files are walked by an independent parser and validated by TLC against Trace_RacFormat.tla (every rule of rac-spec.md); rac.Reader must return the bytes written",
-    "text": "Exhaustive within the bound: every payload over {Z,A,B} up to length 5 (quick, first non-zero byte A) / 6 (thorough) x every partition into Write calls x DChunkSize 1..3 and small CChunkSizes x two abstract codecs, each run on the real code without fault and with the k-th underlying call failing for every k; plus seeded zero-heavy payloads of 2..70 kB through the real codecs. Conservation (emitted ++ pending = accepted), the refinement of the property layer, stickiness and the RAC format rules are evaluated by TLC; verdicts only from what the real code returned.",
+    "text": "Exhaustive within the bound: every payload over {Z,A,B} (first non-zero byte A) up to length 5 (quick) / 6 (thorough) x every partition into Write calls x DChunkSize 1..3 and small CChunkSizes x two abstract codecs, each run on the real code without fault and with the k-th underlying call failing for every k; plus seeded zero-heavy payloads of 2..70 kB through the real codecs. Conservation (emitted ++ pending = accepted), the refinement of the property layer, stickiness and the RAC format rules are evaluated by TLC; verdicts only from what the real code returned.",
     "note": "Trusted: TLC, the transport of results as JSON, the harness's model codec (a legitimate rac.CodecWriter/CodecReader pair), SHA-256 comparison of large payloads in the harness. The walker cannot decode LZ4/Zstandard chunk contents (no independent decoder offline); for those codecs file structure and rac.Reader read-back are checked. Hangs of rac.Writer would surface as a tooling timeout.",
 }
 
@@ -261,7 +261,7 @@ def run(ctx):
     ctx.env.setdefault("JAVA_TOOL_OPTIONS", "-XX:ParallelGCThreads=4")
     binp = ctx.go_build("./cmd/racwreplay")
     maxlen = int(os.environ.get("VERIF_C13_MAXLEN", "6" if thorough else "5"))
-    canonical = not thorough
+    canonical = True
 
     bug1, bug2, wit = detect_tree(ctx, binp)
     ctx.log("tree behaviour: %s %s; %s %s" % (K1, "PRESENT" if bug1 else "absent", K2, "PRESENT" if bug2 else "absent"))
@@ -283,7 +283,7 @@ def run(ctx):
 
     def t_fixed():
         results["fixed"] = ctx.tlc("RacWriter", cfg="fixed.cfg", data={"fixed.cfg": impl_cfg(
-            maxlen if thorough else 4, dsizes, [2, 3, 4], [3, 4, 5], "any", True, 0, True, canonical, False, inv_all, ["Refines"], "NoHist")},
+            maxlen - 1, dsizes, [2, 3, 4], [3, 4, 5], "any", True, 0, True, False, False, inv_all, ["Refines"], "NoHist")},
             timeout=3000, workers=4, label="impl-layer FIXED=TRUE (all cuts, empty writes)")
 
     # 2. the model of the tree as it is: Conservation.  Expected to FAIL iff the tree has finding 1;
@@ -387,7 +387,62 @@ def run(ctx):
         if r["trace"]:
             r["trace"] += len(out["traces"])
         reals.append(r)
-    rejects = judge(ctx, scripts, out["rows"], shapes, reals, traces, "all")
+    # canaries: one recorded field of a row / shape / real row / trace is corrupted on purpose; TLC must reject
+    # exactly these (a judgement that accepts everything would be vacuous)
+    import copy
+    canary = {}
+    good_row = next((r for r in out["rows"] if r["trace"] and r["readok"] and len(r["readback"]) >= 2), None)
+    rows_j, shapes_j, reals_j, traces_j = list(out["rows"]), list(shapes), list(reals), list(traces)
+    if good_row:
+        r = copy.deepcopy(good_row)
+        r["readback"][0] = "B" if r["readback"][0] != "B" else "A"
+        rows_j.append(r)
+        canary[("row", len(rows_j))] = "readback-differs"
+        r = copy.deepcopy(good_row)
+        if r["haschunks"] and r["chunks"]:
+            r["chunks"][0]["d"] += 1
+            rows_j.append(r)
+            canary[("row", len(rows_j))] = "chunks-differ-from-written"
+    fs = next((s for s in shapes if s["f"] and s["f"] < s["n"] - 1), None)
+    if fs:
+        s = copy.deepcopy(fs)
+        s["replies"] = s["replies"][:s["n"] - 2] + "O" + s["replies"][s["n"] - 1:]
+        shapes_j.append(s)
+        canary[("shape", len(shapes_j))] = "fault-not-sticky"
+    if reals:
+        r = copy.deepcopy(next((x for x in reals if x["trace"]), reals[0]))
+        r["readsha"] = "0" * 16
+        reals_j.append(r)
+        canary[("real", len(reals_j))] = "readback-differs"
+    if traces:
+        base_t = next((t for t in traces if t["leaves"]), traces[0])
+        t = copy.deepcopy(base_t)
+        t["visits"][0]["cklisted"] = (t["visits"][0]["cklisted"] + 1) % 65536
+        traces_j.append(t)
+        canary[("trace", len(traces_j))] = "checksum"
+        t = copy.deepcopy(base_t)
+        rootv = next(v for v in t["visits"] if v["v"] == t["leaves"][-1]["parent"])
+        rootv["dptr"][-1] += 1                     # DPtrMax off by one (checksum left as recorded)
+        traces_j.append(t)
+        canary[("trace", len(traces_j))] = "leaf-drange"
+        t = copy.deepcopy(base_t)
+        t["visits"][0]["version"] = 2
+        traces_j.append(t)
+        canary[("trace", len(traces_j))] = "version"
+    rejects_all = judge(ctx, scripts, rows_j, shapes_j, reals_j, traces_j, "all")
+    rejects = []
+    for o in rejects_all:
+        k = (o["kind"], o["idx"])
+        if k in canary:
+            if canary[k] not in o["reasons"]:
+                raise ToolingError("canary %s rejected for %s, expected %s" % (k, o["reasons"], canary[k]))
+            canary[k] = None
+        else:
+            rejects.append(o)
+    missed = [k for k, v in canary.items() if v is not None]
+    if missed:
+        raise ToolingError("TLC accepted deliberately corrupted items: %s" % missed)
+    ctx.log("%d deliberately corrupted rows/shapes/traces were all rejected by TLC; %d genuine items rejected" % (len(canary), len(rejects)))
 
     # 8. classification
     n_viol = 0
